@@ -133,6 +133,10 @@ def gen_cases(tier, seed):
             for sc, n in (("refuse", 0), ("pipelined", 200), ("pipelined", 0)):
                 k += 1
                 cs.append(Case("lo%d" % k, "lo", [front, sc, n if rep == 0 else r.randint(0, 5000), 5, 500], "front-%s-%s" % (front, sc), True, model=False))
+                # the same with a client whose padding scheme differs from the server's (the server pushes its own): the
+                # verdict must arrive all the same (seed C10-3)
+                k += 1
+                cs.append(Case("lo%d" % k, "lo", [front, sc, n if rep == 0 else r.randint(0, 5000), 5, 500, "cs"], "front-%s-%s-other-scheme" % (front, sc), True, model=False))
     return cs
 
 
